@@ -193,7 +193,10 @@ Inductive errc := EEOF | EErr.     (* io.EOF | any other error *)
    the start.  Frames that arrived for its id before were dropped by design (DESIGN.md I5), so
    the data theorems (complete / prefix) speak about connections with c_late = false; the
    fail-stop theorems (latch, nothing blocks after close, idempotence) cover all of them. *)
-Record conn_st := mkConn { c_id : N; c_queue : list bytes; c_closed : bool; c_mapped : bool; c_late : bool }.
+(* c_gen counts the earlier connection objects of this id on this Mux (each closed by conn.Close and
+   replaced by a later Open): c_gen > 0 means that stale handles of the id exist.  The model follows the
+   CURRENT object of an id; of a stale handle it models the repeated Close (EvStaleClose), not Reads. *)
+Record conn_st := mkConn { c_id : N; c_queue : list bytes; c_closed : bool; c_mapped : bool; c_late : bool; c_gen : N }.
 
 (* one end of the trunk.  m_rx: the bytes that will still arrive from the peer before the
    trunk ends (a cut trunk = a prefix of the peer's stream); m_tx: the bytes written so far *)
@@ -209,16 +212,20 @@ Definition set_reader_done v s := mkMux (m_rx s) (m_conns s) (m_err s) (m_closed
 Definition set_tx v b s := mkMux (m_rx s) (m_conns s) (m_err s) (m_closed s) (m_reader_done s) (m_qlen s) v b.
 
 Definition init_mux (rx : bytes) (qlen : N) (opened : list N) : mux_st :=
-  mkMux rx (map (fun id => mkConn id [] false true false) opened) None false false qlen [] false.
+  mkMux rx (map (fun id => mkConn id [] false true false 0) opened) None false false qlen [] false.
 
 Definition find_conn (id : N) (cs : list conn_st) : option conn_st :=
   find (fun c => c_id c =? id) cs.
 Definition upd_conn (id : N) (f : conn_st -> conn_st) (cs : list conn_st) : list conn_st :=
   map (fun c => if c_id c =? id then f c else c) cs.
-Definition c_push (p : bytes) (c : conn_st) := mkConn (c_id c) (c_queue c ++ [p]) (c_closed c) (c_mapped c) (c_late c).
-Definition c_set_queue (q : list bytes) (c : conn_st) := mkConn (c_id c) q (c_closed c) (c_mapped c) (c_late c).
-Definition c_close (c : conn_st) := mkConn (c_id c) (c_queue c) true (c_mapped c) (c_late c).
-Definition c_unmap (c : conn_st) := mkConn (c_id c) (c_queue c) true false (c_late c).
+Definition c_push (p : bytes) (c : conn_st) := mkConn (c_id c) (c_queue c ++ [p]) (c_closed c) (c_mapped c) (c_late c) (c_gen c).
+Definition c_set_queue (q : list bytes) (c : conn_st) := mkConn (c_id c) q (c_closed c) (c_mapped c) (c_late c) (c_gen c).
+Definition c_close (c : conn_st) := mkConn (c_id c) (c_queue c) true (c_mapped c) (c_late c) (c_gen c).
+Definition c_unmap (c : conn_st) := mkConn (c_id c) (c_queue c) true false (c_late c) (c_gen c).
+(* delete(mux.conns, id) alone: the connection leaves the map and is NOT closed *)
+Definition c_drop (c : conn_st) := mkConn (c_id c) (c_queue c) (c_closed c) false (c_late c) (c_gen c).
+(* a fresh object for the id of c (re-Open after conn.Close) *)
+Definition c_fresh (closed : bool) (c : conn_st) := mkConn (c_id c) [] closed true true (c_gen c + 1).
 
 (* setError: errOnce, the first error wins *)
 Definition latch (e : errc) (s : mux_st) : mux_st :=
@@ -275,9 +282,7 @@ Inductive result :=
 | RErr (e : errc)
 | RBlock              (* the call would block now *)
 | ROk
-| RNoConn             (* the id was never opened on this mux *)
-| RReopen.            (* Open of an id whose connection was closed by conn.Close: the code makes a second
-                         connection object for the id; the model keeps one object per id and does not follow *)
+| RNoConn.            (* the id was never opened on this mux / there is no stale handle of it *)
 
 (* conn.Read: select { <-doneC ; <-readC }.  When both are ready Go picks either;
    [pick] is that choice (true = the queued frame) *)
@@ -307,13 +312,28 @@ Definition read_buf_step (id : N) (pick : bool) (blen bcap : N) (s : mux_st) : m
 (* mux.Open(id) at any moment: the reserved id is refused; an id that is in mux.conns yields the
    existing connection; otherwise a connection is created and — if the source does so
    (MuxConsts.open_closes_on_closed) — closed at once when the Mux is closed already.
-   [closes] is that switch. *)
+   [closes] is that switch.  An id whose connection was closed by conn.Close is not in the map any more:
+   Open makes a fresh object for it (empty queue; the old object becomes a stale handle). *)
 Definition open_step (closes : bool) (id : N) (s : mux_st) : mux_st * result :=
   if id =? reserved_conn_id then (s, RErr EErr)
   else match find_conn id (m_conns s) with
-       | Some c => if c_mapped c then (s, ROk) else (s, RReopen)
-       | None => (set_conns (m_conns s ++ [mkConn id [] (closes && m_closed s) true true]) s, ROk)
+       | Some c => if c_mapped c then (s, ROk)
+                   else (set_conns (upd_conn id (c_fresh (closes && m_closed s)) (m_conns s)) s, ROk)
+       | None => (set_conns (m_conns s ++ [mkConn id [] (closes && m_closed s) true true 0]) s, ROk)
        end.
+
+(* Close called again on a stale handle of id (an object that conn.Close had closed before the id was
+   opened again).  conn.Close:  if mux.conns[id] == c { delete(mux.conns, id) };  c.close()  — the stale
+   object is closed already, the map holds the replacement: nothing happens.  Whether the source has that
+   test is read from it (MuxConsts.close_checks_identity); [guarded] is the switch: without the test the
+   REPLACEMENT leaves the map and stays open. *)
+Definition stale_close_step (guarded : bool) (id : N) (s : mux_st) : mux_st * result :=
+  match find_conn id (m_conns s) with
+  | Some c => if 0 <? c_gen c
+              then ((if guarded then s else set_conns (upd_conn id c_drop (m_conns s)) s), ROk)
+              else (s, RNoConn)
+  | None => (s, RNoConn)
+  end.
 
 (* the trunk.Write calls of one mux.write: header, payload, header, payload, … *)
 Definition write_calls (fs : list frame) : list N := flat_map (fun f => [8; lenN (snd f)]) fs.
@@ -353,6 +373,7 @@ Inductive event :=
 | EvRead (id : N) (pick : bool)
 | EvReadB (id : N) (pick : bool) (blen bcap : N)   (* Read with a buffer of length blen, capacity bcap *)
 | EvOpen (id : N)
+| EvStaleClose (id : N)   (* Close on a stale handle of id, once more *)
 | EvWrite (id : N) (buf : bytes) (cut : option N)
 | EvClose
 | EvConnClose (id : N)
@@ -365,6 +386,7 @@ Definition step_mp (mp : N) (s : mux_st) (e : event) : mux_st * result :=
   | EvRead id pick => read_step id pick s
   | EvReadB id pick blen bcap => read_buf_step id pick blen bcap s
   | EvOpen id => open_step open_closes_on_closed id s
+  | EvStaleClose id => stale_close_step close_checks_identity id s
   | EvWrite id buf cut => write_step mp id buf cut s
   | EvClose => (do_close s, ROk)
   | EvConnClose id => (conn_close_step id s, ROk)
@@ -383,18 +405,19 @@ Fixpoint run_mp (mp : N) (s : mux_st) (evs : list event) : mux_st * list (event 
 Definition step := step_mp max_payload_size.
 Definition run := run_mp max_payload_size.
 
-(* the same machine with the Open switch given explicitly (for the refuted variant) *)
-Definition step_var (closes : bool) (mp : N) (s : mux_st) (e : event) : mux_st * result :=
+(* the same machine with the switches read from the source given explicitly (for the refuted variants) *)
+Definition step_var (closes guarded : bool) (mp : N) (s : mux_st) (e : event) : mux_st * result :=
   match e with
   | EvOpen id => open_step closes id s
+  | EvStaleClose id => stale_close_step guarded id s
   | _ => step_mp mp s e
   end.
-Fixpoint run_var (closes : bool) (mp : N) (s : mux_st) (evs : list event) : mux_st * list (event * result) :=
+Fixpoint run_var (closes guarded : bool) (mp : N) (s : mux_st) (evs : list event) : mux_st * list (event * result) :=
   match evs with
   | [] => (s, [])
   | e :: r =>
-      let (s1, o) := step_var closes mp s e in
-      let (s2, tr) := run_var closes mp s1 r in
+      let (s1, o) := step_var closes guarded mp s e in
+      let (s2, tr) := run_var closes guarded mp s1 r in
       (s2, (e, o) :: tr)
   end.
 
